@@ -217,3 +217,65 @@ def earlystop_fault(fault: int, every: bool, t_state: int, pre_op: int, follow: 
 def svc_es_name(tid):
   from vizier._src.service import resources
   return resources.EarlyStoppingOperationResource('o', 's', tid).name
+
+
+# ---- the same with the REAL PythiaServicer and a policy whose early_stop raises (the fault travels through the Pythia layer) --
+class _EsPolicy:
+  calls = 0
+  fail = None
+
+  def suggest(self, request):
+    from vizier import pythia
+    from vizier import pyvizier as vz
+    return pythia.SuggestDecision([vz.TrialSuggestion({'x': 0.5}) for _ in range(request.count)])
+
+  def early_stop(self, request):
+    from vizier import pythia
+    _EsPolicy.calls += 1
+    if _EsPolicy.fail is not None:
+      raise _EsPolicy.fail
+    return pythia.EarlyStopDecisions([pythia.EarlyStopDecision(id=i, reason='r', should_stop=False)
+                                      for i in (request.trial_ids or [1])])
+
+
+class _Custom(Exception):
+  pass
+
+
+def earlystop_policy_fault(kind: int, every: bool, pre_op: int) -> bool:
+  """
+  pre: 0 <= kind <= 4 and 0 <= pre_op <= 1
+  post: _
+  """
+  kind, every, pre_op = conc(kind, 0, 4), (True if every else False), conc(pre_op, 0, 1)
+  with NoTracing():
+    from vizier._src.service import pythia_service
+    sv = svc.new_servicer()
+    sv.default_pythia_service = pythia_service.PythiaServicer(sv, policy_factory=lambda *a, **k: _EsPolicy())
+    svc.add_study(sv)
+    sv.datastore.create_trial(svc.make_trial(1, ACTIVE, client='w', n_meas=1))
+    if pre_op:
+      o = vizier_oss_pb2.EarlyStoppingOperation(name=svc_es_name(1),
+                                                status=vizier_oss_pb2.EarlyStoppingOperation.Status.DONE)
+      o.completion_time.FromSeconds(10)
+      sv.datastore.create_early_stopping_operation(o)
+    _EsPolicy.calls = 0
+    _EsPolicy.fail = [ValueError('bad'), NotImplementedError('no early stopping'), ZeroDivisionError('div'), _Custom('x'),
+                      KeyError('k')][kind]
+    before = svc.abstract(sv)
+    req = vs.CheckTrialEarlyStoppingStateRequest(trial_name=svc.trial_name(1))
+    r1, exc1 = svc.call(sv.CheckTrialEarlyStoppingState, req)
+    ok = exc1 is not None and _EsPolicy.calls == 1          # whatever the algorithm raises is reported to the caller
+    op = sv.datastore.get_early_stopping_operation(svc_es_name(1))
+    ok = ok and op.status != vizier_oss_pb2.EarlyStoppingOperation.Status.ACTIVE      # ... and nothing is left pending
+    if not every:
+      _EsPolicy.fail = None
+    svc.CLOCK[0] += 3600
+    r2, exc2 = svc.call(sv.CheckTrialEarlyStoppingState, req)
+    ok = ok and _EsPolicy.calls == 2                         # the next check (after the recycle period) reaches the algorithm
+    if not every:
+      ok = ok and exc2 is None and r2.should_stop is False
+    ok = ok and svc.lifecycle_ok(before, svc.abstract(sv))
+    _EsPolicy.fail = None
+  reach('es_policy_fault')
+  return finish(ok, (kind, every, pre_op))
